@@ -89,6 +89,7 @@ Apply(ln) ==
       [] ln.ev = "InboundVAA"   -> InboundVAAChoice(LVaaIn(ln.a.w), DOMAIN ln.s.db # DOMAIN db)
       [] ln.ev = "Advance"      -> Advance(ln.a.k)
       [] ln.ev = "StoreDown"    -> StoreDown
+      [] ln.ev = "Restart"      -> Restart
       [] ln.ev = "CleanupTick"  -> CleanupTick(LateSet \ DOMAIN ln.s.agg)
       [] OTHER                  -> FALSE       \* Panic / LoopbackMissing / Slow lines match nothing
 
